@@ -268,7 +268,7 @@ static void do_footprint_mark(const Op& op) {
   // parts of the segment map (8 KiB each, one per ~2 TiB of address space in which a segment was ever placed) are allocated
   // on first use and kept by design; their number is bounded by the address space, not by the history
   size_t segmap_parts = 0;
-  for (auto& r : os_regions()) { if (r.donated) continue; if (r.len <= 8192) { segmap_parts++; continue; } mapped += r.len; resident += os_resident_bytes(r.start, r.len); }
+  for (auto& r : os_regions()) { if (r.donated) continue; if (r.len <= 8192) { segmap_parts++; continue; } mapped += r.len; if (!os_is_hugetlb(r.start)) resident += os_resident_bytes(r.start, r.len); }
   if (segmap_parts > 64) sim_violation("footprint_creep", "%zu mappings of at most 8 KiB exist (segment-map parts are bounded by the address space: at most 25 in the simulated window)", segmap_parts);
   H.fp_mapped.push_back(mapped); H.fp_resident.push_back(resident); H.fp_accessible.push_back(os_accessible_bytes());
   H.fp_work.push_back(H.work_hash); H.work_hash = 0;
@@ -295,6 +295,7 @@ static void do_giveback_check(const Op& op) {
   const bool purge_faults = (g_os.refused[OS_MADV_DONTNEED] + g_os.refused[OS_MADV_FREE] + g_os.refused[OS_MPROTECT_NONE] + g_os.refused[OS_MPROTECT_RW] + g_os.refused[OS_MUNMAP]) > 0;
   if (!(op.a & 2) && !purge_faults && mi_option_get(mi_option_purge_delay) >= 0 && mi_option_get(mi_option_purge_decommits) != 0) {
     for (auto& a : as) {
+      if (os_is_hugetlb(a.start)) continue;      // an arena of explicit huge OS pages is pinned: it cannot be decommitted
       uint64_t res = os_resident_bytes(a.start, a.size);
       if (res > 0) sim_violation("arena_still_committed", "after everything was freed and mi_collect(true): %llu bytes of arena [0x%llx,+0x%llx) are still resident (committed)", (unsigned long long)res, (unsigned long long)a.start, (unsigned long long)a.size);
     }
@@ -319,6 +320,7 @@ static void do_arena_fill_check(const Op& op) {
   for (auto& kv : H.live) { Block* b = kv.second; if (b->p >= H.arenas[as].start && b->p < H.arenas[as].start + H.arenas[as].size) { H.ops_noop++; return; } }
   const MArena& ar = H.arenas[as];
   if (mi_option_is_enabled(mi_option_disallow_arena_alloc)) { H.ops_noop++; return; }   // documented: nothing is allocated from arenas then
+  if (ar.pinned) { H.ops_noop++; return; }   // arenas of large / huge OS pages are not used by secure builds or by threads that still commit lazily (src/segment.c:mi_segment_os_alloc)
   collect_all_heaps(true);
   mi_heap_t* h = mi_heap_new_in_arena(ar.id);
   if (!h) { H.ops_noop++; return; }
